@@ -286,6 +286,8 @@ def confirm_against_program(ctx):
     for p in ctx.problems:
         if p.kind != 'oracle' or p.case is None or not hasattr(p.case, 'argv'):
             continue
+        if (p.signature or '').startswith('real-binary:'):
+            continue        # the verdict was reached on the untagged binary run as a separate process: there is nothing left to confirm
         if (p.signature or '').startswith(('nondeterministic', 'depth-order-dependent')):
             continue        # a verdict about runs that differ from one another: one more run proves nothing either way (C05 repeats it across processes itself)
         if checked >= 8:
